@@ -1,11 +1,143 @@
 /-
-  C01 — every produced program is well-typed (theorems are added below as they are proved).
+  C01 — every produced program is well-typed.
+
+  `wt g deps ty v` (Model/Tree.lean) is the full recursive type check of the property statement:
+  a registered concrete production where a class is declared, well-typed elements for a list, a
+  real tuple of the declared arity, one of the alternatives for a union, exactly the declared
+  base type for int / float / str / bool, and every refinement satisfied (dependent ones against
+  the actual earlier siblings).  The hypotheses are decidable (`Bool`-valued):
+
+  * `grammarWF g`  — on the analysed grammar (Lemmas/WellTyped.lean);
+  * `tyWF ty`, `depsOK deps ty` — only for creation from an ARBITRARY type expression with
+    ARBITRARY sibling values; both are `true` by computation for a class symbol (`.cls n`), so
+    they disappear from every statement about whole programs.
 -/
-import GEVerif.Model.Synth
+import GEVerif.Lemmas.WellTyped
 
 namespace GEVerif.C01
 open GEVerif
 
-theorem C01_placeholder : True := trivial
+/-- MAIN THEOREM.  Whatever the decider kind, the fuel, the type, the synthesis context, the
+sibling values and the state (random source / genotype / PI-grow flag) are: if `create_node`
+returns a value, the value is well-typed for the requested type. -/
+theorem C01_create_wt (g : Grammar) (hg : grammarWF g = true) (dec : Decider) (fuel : Nat)
+    (ty : Ty) (ctx : Ctx) (deps : List (String × Val)) (s s' : SynSt) (v : Val)
+    (hty : tyWF ty = true) (hdeps : depsOK deps ty = true)
+    (h : createNode g dec fuel ty ctx deps s = .ok v s') : wt g deps ty v = true :=
+  (createOK g (GWF_of_grammarWF g hg) dec fuel).1 ty ctx deps s v s' hty hdeps h
+
+/-- For a class symbol the side conditions on the type are vacuous. -/
+theorem C01_create_cls_wt (g : Grammar) (hg : grammarWF g = true) (dec : Decider) (fuel : Nat)
+    (n : Nat) (ctx : Ctx) (deps : List (String × Val)) (s s' : SynSt) (v : Val)
+    (h : createNode g dec fuel (.cls n) ctx deps s = .ok v s') : wt g deps (.cls n) v = true :=
+  C01_create_wt g hg dec fuel (.cls n) ctx deps s s' v (by simp [tyWF]) (by simp [depsOK, sizeDeps]) h
+
+/-- `random_tree` (every initialiser is `random_tree` with one of the deciders). -/
+theorem C01_random_tree_wt (g : Grammar) (hg : grammarWF g = true) (dec : Decider) (fuel : Nat)
+    (s s' : SynSt) (v : Val) (h : randomTree g dec fuel s = .ok v s') :
+    wt g [] (.cls g.spec.start) v = true :=
+  C01_create_cls_wt g hg dec fuel _ _ _ s s' v h
+
+/-- GE: the program mapped from ANY genotype is well-typed. -/
+theorem C01_mapGE_wt (g : Grammar) (hg : grammarWF g = true) (dec : Decider) (fuel : Nat)
+    (dna : List Int) (expanding : Bool) (v : Val) (s' : SynSt)
+    (h : mapGE g dec fuel dna expanding = .ok v s') : wt g [] (.cls g.spec.start) v = true :=
+  C01_create_cls_wt g hg dec fuel _ _ _ _ s' v h
+
+/-- SGE -/
+theorem C01_mapSGE_wt (g : Grammar) (hg : grammarWF g = true) (dec : Decider) (fuel : Nat)
+    (dna : SGEDna) (expanding : Bool) (v : Val) (s' : SynSt)
+    (h : mapSGE g dec fuel dna expanding = .ok v s') : wt g [] (.cls g.spec.start) v = true :=
+  C01_mapGE_wt g hg dec fuel _ expanding v s' h
+
+/-- dynamic SGE (for any genotype, any shared stream the genotype is extended from) -/
+theorem C01_mapDSGE_wt (g : Grammar) (hg : grammarWF g = true) (maxDepth fuel : Nat)
+    (dna : DSGEDna) (shared : Script) (v : Val) (s' : SynSt)
+    (h : mapDSGE g maxDepth fuel dna shared = .ok v s') : wt g [] (.cls g.spec.start) v = true := by
+  unfold mapDSGE at h
+  simp only at h
+  split at h
+  · cases h
+  · exact C01_create_cls_wt g hg _ fuel _ _ _ _ s' v h
+
+/-- `tree_mutate`: the child is well-typed for the start symbol (at the pinned commit the
+operator acts at the root and regenerates it, so nothing is even required of the parent). -/
+theorem C01_mutate_wt (g : Grammar) (hg : grammarWF g = true) (dec : Decider) (fuel : Nat)
+    (p : Val) (s s' : SynSt) (c : Val) (h : treeMutate g dec fuel p s = .ok c s') :
+    wt g [] (.cls g.spec.start) c = true :=
+  treeMutate_wt g (GWF_of_grammarWF g hg) dec fuel p s s' c h
+
+/-- `tree_crossover`: children of well-typed parents are well-typed: each child is a fresh tree
+or an occurrence of the start symbol inside the other (well-typed) parent. -/
+theorem C01_crossover_wt (g : Grammar) (hg : grammarWF g = true) (dec : Decider) (fuel : Nat)
+    (p1 p2 : Val) (s s' : SynSt) (c1 c2 : Val)
+    (h1 : wt g [] (.cls g.spec.start) p1 = true) (h2 : wt g [] (.cls g.spec.start) p2 = true)
+    (h : treeCrossover g dec fuel p1 p2 s = .ok (c1, c2) s') :
+    wt g [] (.cls g.spec.start) c1 = true ∧ wt g [] (.cls g.spec.start) c2 = true :=
+  treeCrossover_wt g (GWF_of_grammarWF g hg) dec fuel p1 p2 s s' c1 c2 h1 h2 h
+
+/-- Donor material: every occurrence of class `c` anywhere inside a well-typed value (of any
+type, under any sibling values) is itself a well-typed `c`. -/
+theorem C01_occurrence_wt (g : Grammar) (deps : List (String × Val)) (ty : Ty) (v : Val) (c : Nat)
+    (h : wt g deps ty v = true) (x : Val) (hx : x ∈ occurrences c v) :
+    wt g [] (.cls c) x = true :=
+  occurrences_wt g deps ty v c h x hx
+
+/-- Any finite sequence of create / map (GE, SGE, dynamic SGE) / mutate / crossover / select
+operations (`Op`, `runOps` in Lemmas/WellTyped.lean; deciders, genotypes and indices arbitrary,
+failing operations allowed) applied to a pool of well-typed programs leaves a pool of well-typed
+programs.  Every prefix of a sequence is a sequence, so every program EVER in the pool is
+well-typed (`C01_ops_ever_wt`). -/
+theorem C01_ops_wt (g : Grammar) (hg : grammarWF g = true) (fuel : Nat) (ops : List Op)
+    (pool : List Val) (s : SynSt)
+    (hpool : ∀ p ∈ pool, wt g [] (.cls g.spec.start) p = true) :
+    ∀ p ∈ (runOps g fuel ops pool s).1, wt g [] (.cls g.spec.start) p = true :=
+  runOps_wt g (GWF_of_grammarWF g hg) fuel ops pool s hpool
+
+theorem C01_ops_ever_wt (g : Grammar) (hg : grammarWF g = true) (fuel : Nat) (ops : List Op)
+    (s : SynSt) (k : Nat) :
+    ∀ p ∈ (runOps g fuel (ops.take k) [] s).1, wt g [] (.cls g.spec.start) p = true :=
+  C01_ops_wt g hg fuel (ops.take k) [] s (fun _ h => by cases h)
+
+/-- A foreign / partially built / lazily evaluated value (anything that is not one of the
+library's own value forms) inhabits no type: the fitness function never receives one. -/
+theorem C01_foreign_never_wt (g : Grammar) (deps : List (String × Val)) (ty : Ty) (tag : String) :
+    wt g deps ty (.foreign tag) = false :=
+  foreign_not_wt g deps tag ty
+
+/-- ... not even nested anywhere inside a well-typed program. -/
+theorem C01_foreign_never_inside (g : Grammar) (deps : List (String × Val)) (ty : Ty) (v : Val)
+    (h : wt g deps ty v = true) (tag : String) : Val.foreign tag ∉ v.subvalues :=
+  foreign_not_sub g v deps ty h tag
+
+/-! ### Non-vacuity: the hypotheses hold on a concrete grammar and creation succeeds there -/
+
+example : grammarWF exGWT = true := by decide
+example : exGWT.altsOf 0 = some [1, 2, 3] := by decide
+-- the side conditions on types are decidable and hold / fail as intended
+example : tyWF (.ann (.list (.cls 0)) (.depListSize "n")) = true := by decide
+example : tyWF (.ann .str (.intRange 0 5)) = false := by decide
+example : depsOK [("n", .int 2)] (.ann (.list (.cls 0)) (.depListSize "n")) = true := by decide
+example : depsOK [("n", .int (-1))] (.ann (.list (.cls 0)) (.depListSize "n")) = false := by decide
+-- grow, full, PI-grow, GE and dynamic SGE all succeed on it, so the theorems apply
+example : (randomTree exGWT ⟨.grow, 1⟩ 30 (exStWT [0, 5])).isOk = true := by decide
+example : (randomTree exGWT ⟨.grow, 2⟩ 30 (exStWT [2, 2, 0, 5, 0, 7, 1, 0, 1, 0, 1])).isOk = true := by
+  decide +kernel
+example : (randomTree exGWT ⟨.full, 3⟩ 30 (exStWT [2, 2, 0, 5, 0, 7, 1, 0, 1, 0, 1])).isOk = true := by
+  decide +kernel
+example : (mapGE exGWT ⟨.pigrow, 4⟩ 30 [2, 2, 0, 5, 1, 7, 1, 8, 1, 1, 2, 1, 5] true).isOk = true := by
+  decide +kernel
+example : (mapDSGE exGWT 3 30 [] { draws := [2, 2, 0, 5, 1, 7, 1, 8, 1, 1, 2, 1, 5] }).isOk = true := by
+  decide +kernel
+example : ∃ v s', randomTree exGWT ⟨.grow, 2⟩ 30 (exStWT [2, 2, 0, 5, 0, 7, 1, 0, 1, 0, 1]) = .ok v s' ∧
+    wt exGWT [] (.cls 0) v = true := by
+  obtain ⟨v, s', h⟩ := (Res.isOk_iff _).1
+    (show (randomTree exGWT ⟨.grow, 2⟩ 30 (exStWT [2, 2, 0, 5, 0, 7, 1, 0, 1, 0, 1])).isOk = true by
+      decide +kernel)
+  exact ⟨v, s', h, C01_random_tree_wt exGWT (by decide) _ _ _ _ v h⟩
+-- without `grammarWF` the statement is false: an abstract class registered without productions
+-- is instantiated by the model (the real code raises KeyError there)
+example : grammarWF (analyse { classes := [{ name := "A", abstract := true, parent := none, fields := [] }],
+                               start := 0, considered := [0] }) = false := by decide
 
 end GEVerif.C01
